@@ -268,6 +268,25 @@ class Gen:
         lines = ["@dataclass", f"class {n}:"] + [f"    {f['name']}: {f['ty'].py}" + ("" if f["required"] else f" = {f['dflt_src']}") for f in fs]
         self.pool.add(lines)
         return self._obj_node("dataclass", n, fs, decl=lines)
+    def g_reqopt(self, d):
+        """object (dataclass / NamedTuple) with fields declared without default and typed Optional[...]: required for
+        deserialization, yet what exclude_none may omit from the output"""
+        kind = self.rnd.choice(["dataclass", "dataclass", "namedtuple"])
+        n = self.pool.fresh("C" if kind == "dataclass" else "N"); fs = []
+        for nm in self.rnd.sample(NAMES, self.rnd.randint(1, 3)):
+            t = self.rnd.choice([self.g_int, self.g_str, self.g_bool])(0)
+            if self.rnd.random() < 0.7: t = Node("optional", ["union", [t.lean, ["none"]]], f"Optional[{t.py}]", [t])
+            fs.append(dict(name=nm, alias=nm, required=True, fbod=False, ty=t, dflt=None, dflt_src=None))
+        lines = (["@dataclass", f"class {n}:"] if kind == "dataclass" else [f"class {n}(NamedTuple):"]) + [f"    {f['name']}: {f['ty'].py}" for f in fs]
+        self.pool.add(lines)
+        return self._obj_node(kind, n, fs, raw=(kind == "dataclass"), decl=lines)
+    def g_optenum1(self, d):
+        """Optional[E] for an Enum of one member (its schema is a `const`)"""
+        n = self.pool.fresh("E"); m, v = self.rnd.choice([("X", "x"), ("Y", 1), ("Z", "zz")])
+        decl = [f"class {n}(Enum):", f"    {m} = {v!r}"]
+        self.pool.add(decl)
+        e = Node("enum", ["enum", n, [[m, lit_proto(v)]]], n, vals=[v], decl=decl)
+        return Node("optional", ["union", [e.lean, ["none"]]], f"Optional[{n}]", [e])
     def g_aggregate(self, d):
         """dataclass with aggregate fields - an additional-`properties` mapping, a `properties(pattern=...)` mapping, or a
         flattened dataclass: outside the Lean model (tag `aggregate`), inside the model-free checks"""
